@@ -618,6 +618,13 @@ func (ex *Exec) callFuncValue(f *Term, ftyp types.Type, args []*Val, st *State, 
 	for _, a := range args {
 		targs = append(targs, ex.termOf(a))
 	}
+	// the result may depend on the values of scalars at the time of the call (closures such as
+	// LogErfc's read a.GetFloat64() lazily): the value fields are part of the function's input
+	for _, comp := range []string{"F:Real64.Value", "F:Real32.Value"} {
+		if s, ok := ex.allComps[comp]; ok {
+			targs = append(targs, ex.heapGet(st, comp, s))
+		}
+	}
 	name := "apply:" + ex.V.typeName(sig)
 	res := sig.Results()
 	switch res.Len() {
@@ -770,7 +777,16 @@ func (ex *Exec) applyContract(con *Contract, cname string, names []string, typs 
 		}
 		ns := 0
 		for _, cl := range ex.con.Clauses {
-			if cl.Kind != "site" || (cl.Callee != short && cl.Callee != cname) {
+			if cl.Kind != "site" {
+				continue
+			}
+			match := false
+			for _, alt := range strings.Split(cl.Callee, "|") {
+				if alt == short || alt == cname {
+					match = true
+				}
+			}
+			if !match {
 				continue
 			}
 			ns++
